@@ -48,6 +48,7 @@ META = dict(
                       "es_doublecount": 400, "es_simultaneous": 10000,
                       "eca_extra_excluded": 30000, "exchange_checked": 40000,
                       "shift_checked": 8000, "rescale_checked": 1000,
+                      "long_records": 12,
                       "matrix_es": 3000, "matrix_eca": 5000,
                       "instance_vs_static": 400, "mem_compared": 150,
                       "mem_tie_on_threshold": 100, "climnet_compared": 10,
@@ -822,9 +823,81 @@ def random_matrix(r):
             return M
 
 
+def long_record_case(ctx, ES, k):
+    """Records longer than 2^15 (e.g. a century of daily data) / 2^16 samples
+    with a few dozen events, most of them late in the record: time indices
+    beyond 16-bit ranges.  Static functions with index time and the N x N
+    analysis against the reference on the event times."""
+    cid = f"long:{k}"
+    if not _want(ctx, cid):
+        return
+    r = ctx.rng("long", k)
+    T = int(r.choice([32768 + 5, 36525, 40000, 65536 + 17, 70000]))
+    ne = int(r.integers(12, 40))
+    late = r.random() < 0.8
+    lo = T // 2 if late else 0
+    px = np.sort(r.choice(np.arange(lo, T), ne, replace=False))
+    py = np.unique(np.clip(px + r.integers(-3, 4, ne), 0, T - 1))
+    x = np.zeros(T, dtype=int)
+    y = np.zeros(T, dtype=int)
+    x[px], y[py] = 1, 1
+    tx, ty = [float(v) for v in px], [float(v) for v in py]
+    taumax = float(r.choice([2, 5, INF]))
+    case = {"T": T, "events_x": px, "events_y": py, "taumax": taumax}
+    ctx.count("long_records")
+    with warnings.catch_warnings():
+        warnings.simplefilter("ignore")
+        ok, out = ctx.call(ES.event_synchronization, x, y, taumax=taumax)
+        ctx.evals()
+        want = ref.es(tx, ty, taumax, 0.0)
+        if not ok:
+            ctx.violation("event_synchronization:long-record:raises:"
+                          f"{type(out).__name__}", {**case, "exc": repr(out)},
+                          cid)
+        elif want is not None and not (
+                _close(out[0], want[0], 1e-12) and
+                _close(out[1], want[1], 1e-12)):
+            ctx.violation("event_synchronization:long-record:ne-counting-"
+                          "formula", {**case, "lib": out, "ref": want}, cid)
+        dT = float(r.choice([2, 5]))
+        ok, out = ctx.call(ES.event_coincidence_analysis, x, y, dT)
+        ctx.evals()
+        want = ref.eca(tx, ty, dT, 0.0)
+        if not ok:
+            ctx.violation("event_coincidence_analysis:long-record:raises:"
+                          f"{type(out).__name__}", {**case, "exc": repr(out)},
+                          cid)
+        elif any(w is not None and not _close(o, w, 1e-6)
+                 for o, w in zip(out, want)):
+            ctx.violation("event_coincidence_analysis:long-record:ne-"
+                          "counting-formula",
+                          {**case, "deltaT": dT, "lib": out, "ref": want}, cid)
+        ok, A = ctx.call(lambda: ES(np.c_[x, y], taumax=taumax)
+                         .event_series_analysis(method="ES"))
+        ctx.evals()
+        want = ref.es(tx, ty, taumax, 0.0)
+        if not ok:
+            ctx.violation("event_series_analysis:ES:long-record:raises:"
+                          f"{type(A).__name__}", {**case, "exc": repr(A)},
+                          cid)
+        elif want is not None:
+            A = np.asarray(A, float)
+            if not (_close(A[0, 1], want[0], 1e-12) and
+                    _close(A[1, 0], want[1], 1e-12)):
+                ctx.violation("event_series_analysis:ES:long-record:ne-"
+                              "pairwise", {**case, "lib": A, "ref": want},
+                              cid)
+    ctx.nontrivial(("long", T, tuple(px.tolist()), tuple(py.tolist())))
+
+
 # ---------------------------------------------------------------------------
 def run(ctx):
     from pyunicorn.eventseries import EventSeries as ES
+    # ---- B0. long records (index time beyond 16 bit)
+    for k in range(96 if ctx.thorough else 16):
+        if ctx.mine(k):
+            with ctx.guard(120):
+                long_record_case(ctx, ES, k)
     L = 9 if ctx.thorough else 7
     # ---- B1. random event matrices: guaranteed minimum (not time limited)
     bmin = 8000 if ctx.thorough else 1200
